@@ -78,7 +78,7 @@ def app_cases(tier, rng):
 def nontrivial(case, out):
     return ('SFired' in case or 'SOngoing' in case)
 
-STAGES = [dict(name='data', mode='unit', coq='Check.C10c', cases=cases, nontrivial=nontrivial, shard=300,
+STAGES = [dict(name='data', mode='unit', coq='Check.C10c', profile=('Proofs.JudgeBoolP', 'JudgeBoolP.c10_caseb', 'C10_judgement_sound / C10_judgement_transfer (JudgeBoolP.C10_judgement_transfer_b)'), cases=cases, nontrivial=nontrivial, shard=300,
                exhaustive={'thorough': True, 'quick': True},
                rule='ActionData::update + trigger_events driven directly: every state history over {None,Ongoing,Fired} of length <= 6 '
                     '(thorough, 1092) / <= 4 (quick, 120) with deltas cycling through {0,1/64,1/8,1/4}, plus sticky random histories of '
